@@ -169,15 +169,15 @@ INVALID_NAMES = ["", "x;y", ";", "a;"]
 
 
 def mc_forest(wd, fam, max_crates, max_ops, max_tracks=0, with_tracks=False, valid=("a", "b", "c", "d"), invalid=("", "x;y"),
-              opnames=("a", "b", "", "x;y"), crate_ops="all", pre="none", workers=8, timeout=900, tag=None):
+              opnames=("a", "b", "", "x;y"), crate_ops="all", pre="none", track_ops="all", workers=8, timeout=900, tag=None):
     """Model-checks Library on the bounded instance and returns (stats, scripts)."""
     consts = {"Family": fam, "ValidNames": set(valid), "InvalidNames": set(invalid),
               "DupPolicy": "reject" if fam == "v2" else "accept", "PosPolicy": "tail",
               "MaxCrates": max_crates, "MaxTracks": max_tracks, "MaxOps": max_ops, "WithTracks": with_tracks,
-              "OpNames": set(opnames), "CrateOpSet": crate_ops, "Pre": pre}
+              "OpNames": set(opnames), "CrateOpSet": crate_ops, "Pre": pre, "TrackOpSet": track_ops}
     cfg = cfg_text("MCSpec", consts, invariants=LIB_INV, properties=LIB_PROPS, view="MCView",
                    action_constraints=["Emit"])
-    tag = tag or "mcforest_%s_%d_%d_%d_%s_%s" % (fam, max_crates, max_ops, max_tracks, crate_ops, pre)
+    tag = tag or "mcforest_%s_%d_%d_%d_%s_%s_%s_%s" % (fam, max_crates, max_ops, max_tracks, crate_ops, pre, track_ops, len(opnames))
     rc, outp = run_tlc("MCForest", cfg, wd, tag, workers=workers, timeout=timeout)
     res = parse_tlc(outp)
     if res["fatal"] or rc not in (0,) or not res["ok"]:
@@ -190,6 +190,43 @@ def mc_forest(wd, fam, max_crates, max_ops, max_tracks=0, with_tracks=False, val
     stats["edges"] = len(edges)
     stats["instance"] = tag
     stats["constants"] = {k: (sorted(v) if isinstance(v, set) else v) for k, v in consts.items()}
+    return stats, scripts
+
+
+def sim_forest(wd, fam, max_crates, depth, seed, num=100, max_tracks=0, with_tracks=False, valid=("a", "b", "c", "d"),
+               invalid=("", "x;y"), opnames=("a", "b", "c", "", "x;y"), crate_ops="all", pre="none", track_ops="all",
+               limit=400, timeout=300, tag=None):
+    """Random long histories of the specification (tlc -simulate).  Returns (stats, scripts)."""
+    pre_len = {"none": 0, "diverge": 10, "rich": 13}[pre]
+    consts = {"Family": fam, "ValidNames": set(valid), "InvalidNames": set(invalid),
+              "DupPolicy": "reject" if fam == "v2" else "accept", "PosPolicy": "tail",
+              "MaxCrates": max_crates, "MaxTracks": max_tracks, "MaxOps": pre_len + depth, "WithTracks": with_tracks,
+              "OpNames": set(opnames), "CrateOpSet": crate_ops, "Pre": pre, "TrackOpSet": track_ops}
+    cfg = cfg_text("MCSpec", consts, constraints=["SimEmit"])
+    tag = tag or "sim_%s_%d_%d_%s_%s_%s_s%d" % (fam, max_crates, depth, crate_ops, pre, track_ops, seed)
+    rc, outp = run_tlc("MCForest", cfg, wd, tag, workers=4, timeout=timeout,
+                       simulate="num=%d" % max(1, num // 4), extra=["-depth", str(pre_len + depth + 1), "-seed", str(seed)])
+    hists = []
+    seen = set()
+    fatal = None
+    with open(outp, errors="replace") as fh:
+        for line in fh:
+            if line.startswith('"HIST '):
+                if line in seen:
+                    continue
+                seen.add(line)
+                hists.append(json.loads(json.loads(line)[5:]))
+            elif line.startswith("Error:") or "Parsing or semantic analysis failed" in line:
+                fatal = line.strip()
+    if fatal or not hists:
+        raise ToolFailure("tlc -simulate failed on %s rc=%s %s (see %s)" % (tag, rc, fatal, outp))
+    import random as _r
+    rr = _r.Random(seed)
+    rr.shuffle(hists)
+    hists = hists[:limit]
+    scripts = [[paths.to_op(a) for a in h] for h in hists]
+    stats = {"instance": tag, "mode": "simulate", "histories": len(scripts), "depth": depth,
+             "constants": {k: (sorted(v) if isinstance(v, set) else v) for k, v in consts.items()}}
     return stats, scripts
 
 
